@@ -205,6 +205,7 @@ type SrvConn struct {
 	AuthSeen     []*Elem
 	HandshakeTLS string // "", "ok", or error text
 	closedByUs   bool
+	PauseReads   bool
 }
 
 type SentRec struct {
@@ -226,6 +227,10 @@ func (s *Server) accept(p *Pipe) {
 type yieldReader struct{ sc *SrvConn }
 
 func (y yieldReader) Read(p []byte) (int, error) {
+	if y.sc.PauseReads {
+		// a busy or stalled server: it stops reading for a while (back-pressure on the client's writes)
+		y.sc.e.WaitUntil("srv.paused", func() bool { return !y.sc.PauseReads })
+	}
 	n, err := y.sc.conn.Read(p)
 	y.sc.e.Yield("srv.read")
 	return n, err
@@ -239,6 +244,11 @@ func (sc *SrvConn) Send(raw string) error {
 		return io.ErrClosedPipe
 	}
 	n, err := sc.conn.Write([]byte(raw))
+	if sc.End.RecvWindow > 0 || sc.Pipe.Cli.RecvWindow > 0 {
+		// the write may have blocked on the peer's window: take the run token again before
+		// touching shared state
+		sc.e.Yield("srv.written")
+	}
 	sc.PlainOff += int64(n)
 	sc.Sent = append(sc.Sent, SentRec{Seq: len(sc.e.Log), At: sc.e.Now(), Data: raw})
 	sc.e.Logf("srv.send", "%s %s", sc.name(), clip(raw, 160))
